@@ -60,7 +60,10 @@ def regex_job(prop, seed, n, sizes=(2, 9), byte_complete=False, dfs_share=0.2):
                                                         rxgen.r_node(rng, alpha, max(2, size // 2))]},
                                      rxgen.r_node(rng, alpha, 2)]}
             entry = "lark_term"
-        elif x < 0.5:
+        elif x < 0.4:
+            ast = rxgen.lk_node(rng, rng.randint(3, 8))
+            entry = "lark_term"
+        elif x < 0.56:
             ast = rxgen.t_node(rng, alpha, size)
             entry = "lark_term"
         else:
